@@ -47,6 +47,27 @@ class _Quiet:
         k.setdefault("extras", {})["wsgi.errors"] = self.errors
         return self.client.simulate_get(*a, **k)
 
+    def wsgi_get(self, path: str, query: str = "", headers: dict[str, str] | None = None) -> tuple[int, list[tuple[str, str]]]:
+        """GET against the WSGI app itself (no wsgiref validator in between, which refuses some header values).
+        `path` is percent-encoded as on the wire; the WSGI layer decodes it."""
+        import falcon.testing
+
+        environ = falcon.testing.create_environ(path=path, query_string=query, headers=headers or {})
+        environ["wsgi.errors"] = self.errors
+        got: dict[str, Any] = {}
+
+        def start_response(status: str, hdrs: list[tuple[str, str]], exc_info: Any = None) -> None:
+            got["status"] = int(status.split()[0])
+            got["headers"] = hdrs
+
+        for _ in self.client.app(environ, start_response):
+            pass
+        return got["status"], got["headers"]
+
+
+def header_values(hdrs: list[tuple[str, str]], name: str) -> list[str]:
+    return [v for k, v in hdrs if k.lower() == name.lower()]
+
 
 @contextlib.contextmanager
 def pkce_app(prefix: str, resource: str = "https://svc.example/vgi") -> Iterator[Any]:
